@@ -327,3 +327,42 @@ def run(ctx):
                     "harmless only while the archive starts at offset 0 of its file: for an embedded / prefixed archive the position computed here is off by the archive offset (new data written over the tables, wrong block read, wrong key)")
     ctx.rules[R_frame]["obligations"] += n_chk
     ctx.rules[R_frame]["discharged"] += n_chk
+
+    # the block table grows with every added file: its write position is chosen by comparing the new size with the room it had
+    R_grow = ctx.rule("C06.grown-block-table-not-written-in-place", "in write_tables the position the block table is written at is selected by a comparison of its new entry count with the header's old block_table_size (a grown table moves to the end of the archive)", floor=1)
+    wt = next((f for f in mpq.fn_list if f.hir and f.kind != "Closure" and norm(f.path) == "wow_mpq::modification::MutableArchive::write_tables"), None)
+    if wt is None:
+        ctx.bad(R_grow, "write_tables|missing", "-", "function not found", "anchor gone")
+    else:
+        ctx.saw_fn(wt)
+        body = wt.hir["body"]
+        lets = {}
+        for l in hirq.find(body, "let"):
+            if l["pat"].get("k") == "bind" and l.get("init") is not None:
+                lets.setdefault(l["pat"]["name"], []).append(l)
+        # the seek that precedes the block-table bytes: its target mentions block_table_pos directly or through a local
+        found = False
+        for c in hirq.calls(body):
+            if not (c.get("fn") or "").endswith("SeekFrom::Start") or not c.get("args"):
+                continue
+            a = hirq.strip(c["args"][0])
+            r_ = hirq.render(a)
+            chain = [a]
+            if a.get("k") == "path" and a["res"].get("local") in lets:
+                chain += [l["init"] for l in lets[a["res"]["local"]]]
+            txt = " ".join(hirq.render(x) for x in chain)
+            if "block_table_pos" not in txt or "hi_block" in txt:
+                continue
+            found = True
+            selected = False
+            for x in chain:
+                for n in hirq.walk(x):
+                    if n.get("k") == "if" and re.search(r"block_table_size|old_block_table_size", " ".join(hirq.render(lets[v["res"]["local"]][0]["init"]) if v.get("k") == "path" and v["res"].get("local") in lets else hirq.render(v) for v in hirq.walk(n["c"]) if v.get("k") in ("path", "field"))):
+                        selected = True
+            if selected:
+                ctx.ok(R_grow, {"seek": r_[:60], "position_selected_by_size_comparison": True})
+            else:
+                ctx.bad(R_grow, "write_tables|block-table-in-place", "%s:%d" % (wt.file, c["ln"]), "the block table is written at `%s` whatever its new size" % txt[:80],
+                        "file data added in the session starts right behind the old tables: a table that grew by more than the alignment slack overwrites the first appended files (content differs after reopen, no error)")
+        if not found:
+            ctx.bad(R_grow, "write_tables|shape", wt.where, "no seek to the block table position recognised", "shape changed")
